@@ -47,6 +47,10 @@ var leaves = []leaf{
 	{"qualified-unbound", "lisp:no-such-thing", false},
 	{"unknown-package", "nosuchpkg:thing", false},
 	{"qualified-unbound-operator", "(lisp:no-such-fn 1)", false},
+	{"unbound-designator-funcall", "(funcall 'zzfn 1)", false},
+	{"unbound-designator-apply", "(apply 'zzfn '(1))", false},
+	{"unbound-designator-map", "(map 'list 'zzfn '(1 2))", false},
+	{"unbound-designator-foldl", "(foldl 'zzfn 0 '(1 2))", false},
 	{"let-rebinds-constant", "(let ([zq (+ 1 2)] [true (* 2 2)]) 0)", false},
 	{"letseq-rebinds-constant", "(let* ([zq (+ 1 2)] [false (* 2 2)]) 0)", false},
 	{"flet-rebinds-constant", "(flet ([zg (x) x] [true (x) (+ x 1)]) 0)", false},
@@ -385,7 +389,7 @@ func run(r *core.Run) {
 	r.Bound("error_kinds", len(leaves))
 	r.Bound("contexts", len(contexts))
 	r.Bound("layouts", 3)
-	r.Rule("every error kind (unbound symbol, package-qualified unbound symbol as a value and as an operator, symbol of an unknown package, a binding form rejecting a name at bind time after its value forms ran (let / let* / flet / dotimes), (error ..), builtin type error, wrong arity, error inside a called function, a failing form written in a macro template, a failing form a macro built with list, set! of an unbound name, non-tail and tail recursion ending in an error) at every position of every nesting up to the depth bound of 31 contexts (argument positions, let/let* value and body, if test/branches, cond test/body, progn, lambda call, funcall, apply, map callback, labels, flet, handler-bind body, inside a handler, dotimes, thread-first, thunk, macro template argument, macro built argument, rethrown), each in 3 source layouts; plus every error kind x every context loaded from lisp through load-string / load-bytes (bare and under a rethrowing handler, elimination on and off) against the same source loaded by the host; plus every error kind x every context with the definitions and the failing expression in two differently named sources of one runtime (the library as one source, and as one source per form so that every source starts at the same position), against the same text loaded as one source. Non-trivial = the program fails; distinct by source text")
+	r.Rule("every error kind (unbound symbol, package-qualified unbound symbol as a value and as an operator, symbol of an unknown package, an unbound symbol handed as a function designator to funcall / apply / map / foldl, a binding form rejecting a name at bind time after its value forms ran (let / let* / flet / dotimes), (error ..), builtin type error, wrong arity, error inside a called function, a failing form written in a macro template, a failing form a macro built with list, set! of an unbound name, non-tail and tail recursion ending in an error) at every position of every nesting up to the depth bound of 31 contexts (argument positions, let/let* value and body, if test/branches, cond test/body, progn, lambda call, funcall, apply, map callback, labels, flet, handler-bind body, inside a handler, dotimes, thread-first, thunk, macro template argument, macro built argument, rethrown), each in 3 source layouts; plus every error kind x every context loaded from lisp through load-string / load-bytes (bare and under a rethrowing handler, elimination on and off) against the same source loaded by the host; plus every error kind x every context with the definitions and the failing expression in two differently named sources of one runtime (the library as one source, and as one source per form so that every source starts at the same position), against the same text loaded as one source. Non-trivial = the program fails; distinct by source text")
 	r.Assume("frame names are compared only where both sides name the function (anonymous lambdas have no name)")
 	r.Assume("with elimination on, the trace of a program containing recursion must be an order-preserving subsequence of the reference chain whose innermost frame is present; for non-tail recursion and for programs without recursion it must be equal")
 	var seqs [][]int
